@@ -270,8 +270,9 @@ impl Group for C12Node {
     fn property(&self) -> &'static str { "C12" }
     fn model(&self) -> Option<&'static str> { Some("velocity_node") }
     fn rule(&self) -> &'static str {
-        "node: real Node with ManualClock and a global velocity policy (Hourly/Daily), approvals through add_keysend \
-         with distinct payment hashes, restarts through KVVPersister<MemoryKVVStore> + Node::restore_node between any two \
+        "node: real Node with ManualClock and a global velocity policy (Hourly/Daily), approvals through add_keysend / add_invoice \
+         directly and through the signer's approver (handle_proposed_keysend / handle_proposed_invoice, allowlisted and \
+         other payees) with distinct payment hashes and retries, restarts through KVVPersister<MemoryKVVStore> + Node::restore_node between any two \
          approvals; non-trivial = at least one approval, one refusal and one restart"
     }
     fn budget(&self, tier: Tier) -> usize { if tier == Tier::Quick { 300 } else { 5000 } }
@@ -283,8 +284,8 @@ impl Group for C12Node {
         let t: Vec<&str> = op.split_whitespace().collect();
         Some(match t.as_slice() {
             ["n_new", l, ty] => format!("spec {} {}", l, ty),
-            ["n_keysend", now, amt] => format!("insert {} {}", now, amt),
-            ["n_invoice", now, amt] => format!("insert {} {}", now, amt),
+            ["n_keysend", now, amt] | ["n_keysend", now, amt, _] => format!("insert {} {}", now, amt),
+            ["n_invoice", now, amt] | ["n_invoice", now, amt, _] => format!("insert {} {}", now, amt),
             ["n_dup", now] => format!("dup {}", now),
             ["n_restart", l, ty] => format!("restart {} {}", l, ty),
             _ => op.to_string(),
@@ -305,10 +306,12 @@ impl Group for C12Node {
                 let l = if rng.chance(1, 8) { limit + 1 } else { limit };
                 ops.push(format!("n_restart {} {}", l, ty));
             }
+            // route: d = the node entry point directly, a = through the signer's approver
+            // (vls-protocol-signer `Approve::handle_proposed_*`), al = approver, invoice payee on the allowlist
             if a > 0 && a < (1u64 << 60) && rng.chance(1, 2) {
-                ops.push(format!("n_invoice {} {}", t, a));
+                ops.push(format!("n_invoice {} {} {}", t, a, rng.pick(&["d", "a", "al"])));
             } else {
-                ops.push(format!("n_keysend {} {}", t, a));
+                ops.push(format!("n_keysend {} {} {}", t, a, rng.pick(&["d", "a"])));
             }
             // the same payment asked again (retry), possibly several times
             let mut k = 0;
@@ -334,8 +337,8 @@ impl Group for C12Node {
         let mut log: Vec<(u64, u64)> = Vec::new();
         let mut hash_ctr: u32 = 0;
         let (mut st, mut sf, mut sr) = (false, false, false);
-        // last approval request: (is_invoice, amount, counted as approved by the harness)
-        let mut last_req: Option<(bool, u64, bool)> = None;
+        // last approval request: (is_invoice, amount, counted as approved by the harness, route)
+        let mut last_req: Option<(bool, u64, bool, String)> = None;
         // the policy spec in force according to the ops (the oracle never trusts the node's own limit)
         let mut cur_spec: Option<(u64, String)> = None;
         for (i, op) in ops.iter().enumerate() {
@@ -343,10 +346,10 @@ impl Group for C12Node {
             // a retry re-issues the previous request unchanged (same payment hash, same amount)
             let (dup, rewritten);
             let t: Vec<&str> = if let ["n_dup", now] = t0.as_slice() {
-                match last_req {
-                    Some((is_inv, amt, _)) => {
+                match last_req.clone() {
+                    Some((is_inv, amt, _, ref route)) => {
                         dup = true;
-                        rewritten = format!("{} {} {}", if is_inv { "n_invoice" } else { "n_keysend" }, now, amt);
+                        rewritten = format!("{} {} {} {}", if is_inv { "n_invoice" } else { "n_keysend" }, now, amt, route);
                         rewritten.split_whitespace().collect()
                     }
                     None => { co.out.push("bad-op".into()); continue; }
@@ -359,13 +362,18 @@ impl Group for C12Node {
                     let n = Arc::new(Node::new(config, &seed, vec![], services(persister.clone(), clock.clone(), l.parse().unwrap(), itype(ty).unwrap())));
                     persister.new_node(&n.get_id(), &config, &*n.get_state()).unwrap();
                     persister.new_tracker(&n.get_id(), &n.get_tracker()).unwrap();
-                    n.add_allowlist(&[]).unwrap();
+                    {
+                        use lightning_signer::bitcoin::secp256k1::{PublicKey, Secp256k1, SecretKey};
+                        let payee = PublicKey::from_secret_key(&Secp256k1::new(), &SecretKey::from_slice(&[42; 32]).unwrap());
+                        n.add_allowlist(&[format!("payee:{}", payee)]).unwrap();
+                    }
                     let d = digest(&n.get_state().velocity_control);
                     node = Some(n);
                     log.clear();
                     format!("ok {}", d)
                 }
-                [kind @ ("n_keysend" | "n_invoice"), now, amt] => {
+                [kind @ ("n_keysend" | "n_invoice"), now, amt, ..] => {
+                    let route = t.get(3).copied().unwrap_or("d").to_string();
                     let n = node.as_ref().expect("n_new first");
                     let now: u64 = now.parse().unwrap();
                     let amt: u64 = amt.parse().unwrap();
@@ -374,7 +382,7 @@ impl Group for C12Node {
                     let mut h = [0u8; 32];
                     h[..4].copy_from_slice(&hash_ctr.to_be_bytes());
                     let is_invoice = *kind == "n_invoice";
-                    let already_counted = dup && last_req.map(|r| r.2).unwrap_or(false);
+                    let already_counted = dup && last_req.as_ref().map(|r| r.2).unwrap_or(false);
                     let r = std::panic::catch_unwind(std::panic::AssertUnwindSafe(|| {
                         if is_invoice {
                             // a real signed BOLT-11 invoice issued "now" for a fresh payment hash
@@ -383,7 +391,8 @@ impl Group for C12Node {
                             use lightning_signer::invoice::Invoice;
                             use lightning_signer::lightning::types::payment::PaymentSecret;
                             use lightning_signer::lightning_invoice::{Currency, InvoiceBuilder};
-                            let key = SecretKey::from_slice(&[42; 32]).unwrap();
+                            // the payee of key 42 is on the node's allowlist (see n_new), the payee of key 43 is not
+                            let key = SecretKey::from_slice(&[if route == "al" { 42 } else { 43 }; 32]).unwrap();
                             let inv = InvoiceBuilder::new(Currency::BitcoinTestnet)
                                 .description("verif".into())
                                 .payment_hash(Sha256Hash::hash(&h))
@@ -393,9 +402,17 @@ impl Group for C12Node {
                                 .amount_milli_satoshis(amt)
                                 .build_signed(|hash| Secp256k1::new().sign_ecdsa_recoverable(hash, &key))
                                 .unwrap();
-                            n.add_invoice(Invoice::Bolt11(inv))
-                        } else {
+                            if route == "d" {
+                                n.add_invoice(Invoice::Bolt11(inv))
+                            } else {
+                                use vls_protocol_signer::approver::{Approve, PositiveApprover};
+                                PositiveApprover().handle_proposed_invoice(n, Invoice::Bolt11(inv))
+                            }
+                        } else if route == "d" {
                             n.add_keysend(make_test_pubkey(1), PaymentHash(h), amt)
+                        } else {
+                            use vls_protocol_signer::approver::{Approve, PositiveApprover};
+                            PositiveApprover().handle_proposed_keysend(n, make_test_pubkey(1), PaymentHash(h), amt)
                         }
                     }));
                     match r {
@@ -408,7 +425,8 @@ impl Group for C12Node {
                                 Some((l, _)) => (*l, 11 * 300u64),
                                 None => (u64::MAX, 0),
                             };
-                            last_req = Some((is_invoice, amt, ok || already_counted));
+                            last_req = Some((is_invoice, amt, ok || already_counted, route.clone()));
+                            co.tags.insert(format!("route:{}:{}", route, ok));
                             if dup { co.tags.insert(format!("dup:{}", ok)); }
                             if ok && already_counted {
                                 // a repeat of an approved payment: answered true, nothing new approved
